@@ -1367,9 +1367,14 @@ mksection .text
         ;; - XTMP0 includes clear text from CFB processing above
         ;; - k1 includes mask of bytes belonging to the message
         ;; - NUM_BYTES is length of cipher, CRC is 4 bytes shorter
-        ;;     - ignoring hash lengths 1 to 4
+        ;;     - cipher lengths 1 to 4 add no bytes to the CRC: the result is
+        ;;       the CRC carried in (un-finalized at this point)
         cmp             %%NUM_BYTES, 5
-        jb              %%_do_return
+        jae             %%_no_block_pending_crc__ge5
+        vmovd           eax, %%XCRC_IN_OUT
+        not             eax
+        jmp             %%_do_return
+%%_no_block_pending_crc__ge5:
 
         ;; clear top 4 bytes of the data
         kshiftrw        k1, k1, 4
